@@ -69,10 +69,18 @@ def nontrivial(res):
                 st.get("too_large") or st.get("quiet_checks"))
 
 
-def run_scripts(ctx, jobs, tag, procs):
+def report(ctx, seen, what, replay):
+    """at most three replays per kind of failure"""
+    key = what.split(" (script seed")[0]
+    seen[key] = seen.get(key, 0) + 1
+    if seen[key] <= 3:
+        ctx.violation(what, replay, signature=None)
+
+
+def run_scripts(ctx, jobs, tag, procs, seen):
     results = x_c20.run_jobs(jobs, ctx.scratch(), procs=procs)
     # one retry for inconclusive runs that are not failures of the implementation
-    retry = [i for i, r in enumerate(results) if r.get("inconclusive") and not r.get("fail")]
+    retry = [i for i, r in enumerate(results) if r.get("inconclusive") and not r.get("fail") and not r.get("skipped")]
     if retry:
         again = x_c20.run_jobs([jobs[i] for i in retry], ctx.scratch(), procs=max(1, procs // 2))
         for i, r in zip(retry, again):
@@ -82,11 +90,14 @@ def run_scripts(ctx, jobs, tag, procs):
         ctx.count("%s:max_conn=%d" % (tag, job["cfg"]["max_conn"]))
         ctx.count("%s:listeners=%d" % (tag, job["cfg"]["listeners"]))
         ctx.count("%s:timeout=%s" % (tag, job["cfg"]["timeout"]))
+        if res.get("skipped"):
+            ctx.count("%s:skipped-after-failures" % tag)
+            continue
         if res.get("driver_error"):
             ctx.obligation("driver-ran:%s:%d" % (tag, i), False, res.get("inconclusive", ""))
             continue
         for f in res.get("fail", []):
-            ctx.violation("%s: %s" % (tag, f.get("what")), replay_dict(job, res), signature=None)
+            report(ctx, seen, "%s: %s" % (tag, f.get("what")), replay_dict(job, res))
         if res.get("inconclusive"):
             ctx.count("%s:inconclusive" % tag)
             ctx.notes.append("inconclusive script seed=%d: %s" % (job["seed"], res["inconclusive"][:200]))
@@ -96,9 +107,18 @@ def run_scripts(ctx, jobs, tag, procs):
             ctx.count("%s:sum_%s" % (tag, k), v)
         for op in res.get("ops", []):
             ctx.count("%s:op_%s" % (tag, op[0]))
+        if res.get("free"):
+            ctx.case((tag, job["seed"], json.dumps(job["cfg"], sort_keys=True)), nontrivial=nontrivial(res),
+                     sample=dict(mode="free-running", cfg=job["cfg"], stop_at=res.get("stop_at"),
+                                 clients=[(p["kind"], p["hold"]) for p in res.get("plans", [])],
+                                 max_in_handler=res.get("max_in_handler"), selects=res.get("n_selects"))
+                     if nontrivial(res) and i < 3 else None)
+            ctx.count("%s:sum_selects" % tag, res.get("n_selects", 0))
+            continue
         ctx.case((tag, json.dumps(res.get("events"), sort_keys=True), json.dumps(job["cfg"], sort_keys=True)),
                  nontrivial=nontrivial(res),
-                 sample=dict(cfg=job["cfg"], script=res.get("ops"), observed=res.get("obs")[:40]) if nontrivial(res) else None)
+                 sample=dict(cfg=job["cfg"], script=res.get("ops"), observed=res.get("obs")[:40])
+                 if nontrivial(res) and i < 3 else None)
         cases.append(((job["cfg"], res["events"]), res["obs"]))
         idx.append(i)
     if cases:
@@ -112,8 +132,8 @@ def run_scripts(ctx, jobs, tag, procs):
                 shown = ctx.coq_show(x_c20.HEADER, "play %s" % x_c20.enc_case_in(cases[b][0]))
                 rd = replay_dict(jobs[i], results[i])
                 rd["model_says"] = shown[-1200:]
-                ctx.violation("%s: the server loop's decisions differ from the model (script seed %d)" % (
-                    tag, jobs[i]["seed"]), rd, signature=None)
+                report(ctx, seen, "%s: the server loop's decisions differ from the model (script seed %d)" % (
+                    tag, jobs[i]["seed"]), rd)
     return results
 
 
@@ -170,8 +190,14 @@ def run(ctx):
                 ctx.violation("request gate differs from the model", dict(kind="gate", case=gcases[b], result=gres["results"][b]),
                               no_input=False)
     # ---------------------------------------------------------------- scripts against serve()
+    seen = {}
     jobs = make_jobs(ctx, ctx.n(72, 1200))
-    run_scripts(ctx, jobs, "lockstep", procs)
+    run_scripts(ctx, jobs, "lockstep", procs, seen)
+    # ---------------------------------------------------------------- the same server, free-running (real timing)
+    fjobs = make_jobs(ctx, ctx.n(48, 720))
+    for j in fjobs:
+        j["lockstep"] = False
+    run_scripts(ctx, fjobs, "free", procs, seen)
 
 
 def replay(ctx, path):
@@ -180,7 +206,8 @@ def replay(ctx, path):
         res = x_c20.run_jobs([dict(kind="gate", cases=[rp["case"]])], ctx.scratch(), procs=1)[0]
         print(json.dumps(res, indent=1))
         return 0
-    job = dict(kind="script", cfg=rp["cfg"], seed=rp["seed"], nops=0, lockstep=True, script=rp["script"])
+    job = dict(kind="script", cfg=rp["cfg"], seed=rp["seed"], nops=0, lockstep=rp.get("script") is not None,
+               script=rp["script"])
     res = x_c20.run_jobs([job], ctx.scratch(), procs=1)[0]
     print(json.dumps(dict(fail=res.get("fail"), inconclusive=res.get("inconclusive"), ops=res.get("ops"),
                           observed=res.get("obs")), indent=1))
